@@ -74,6 +74,23 @@ pub fn stress_family() -> Vec<(&'static str, Vec<(String, String)>)> {
         ("handler-and-call", vec![f("base.s", "main:\n    la t0, h\n    csrrw zero, 5, t0\n    jal h\n    li a7, 10\n    ecall\nh:\nh2:\n    li s0, 1\n    ret\n")]),
         ("two-functions-one-exit-two-labels", vec![f("base.s", "main:\n    jal f\n    jal g\n    li a7, 10\n    ecall\nf:\n    li s0, 1\ng:\ng2:\n    li s1, 1\n    ret\n")]),
         ("loop-with-garbage-reads", vec![f("base.s", "main:\nL:\n    add a0, t0, t1\n    add a1, t1, t0\n    bnez a0, L\n    li a7, 10\n    ecall\n")]),
+        (
+            "one-file-included-twice",
+            vec![
+                f("base.s", "main:\n    .include \"lib.s\"\n    add zero, a0, a1\n    .include \"lib.s\"\n    li a7, 10\n    ecall\n"),
+                f("lib.s", "    addi t0, t0, t1\n    add zero, a0, a1\n"),
+            ],
+        ),
+        (
+            "one-file-included-four-times-many-diagnostics",
+            vec![
+                f(
+                    "base.s",
+                    "main:\n    .include \"lib.s\"\n    add zero, a0, a1\n    .include \"lib.s\"\n    add zero, a1, a0\n    .include \"lib.s\"\n    frobnicate t0\n    .include \"lib.s\"\n    li a7, 10\n    ecall\n",
+                ),
+                f("lib.s", "    addi t0, t0, t1\n    add zero, a0, a1\n    frobnicate t0\n    add zero, a1, a0\n    addi t1, t1, t0\n    add zero, a0, a0\n"),
+            ],
+        ),
     ]
 }
 
@@ -168,10 +185,11 @@ impl C10 {
             acc.count("choice_points", ex.choice_points_max as u64);
             for (schedule, diags) in &ex.runs {
                 let obs: Vec<_> = diags.iter().map(visible).collect();
-                // (iii) no duplicates inside one result
+                // (iii) no duplicates inside one result (a file included twice is two
+                // instances of its text: the same item once per instance is not a duplicate)
                 for i in 0..obs.len() {
                     for j in (i + 1)..obs.len() {
-                        if obs[i] == obs[j] {
+                        if obs[i] == obs[j] && diags[i].instance == diags[j].instance {
                             acc.violation(
                                 format!("C10|duplicate-diagnostic|{}|{kind}", obs[i].0),
                                 case,
